@@ -44,7 +44,7 @@ CHECKS = {
         technique="TLC-explored crash points (every reachable state) x continuations (every edge); snapshot -> from_snapshot on real interpreters, original vs restored vs model; TLC-enumerated snapshot corruption cases",
         text="Every reachable quiescent state of the TLC model is a crash/resume point and every outgoing state-changing edge a continuation: the real interpreter is snapshotted there (valid JSON), restored with from_snapshot (+start on the async engine), and the same step is performed on original and restored interpreter, which must agree with each other (configuration, history, context, status, output, error flag, ordered actions); re-snapshotting reproduces the snapshot and an earlier snapshot is unaffected by later execution (a nested context value is updated in place after the snapshot). spec/SnapCases.tla enumerates every single-point corruption with the demanded verdict; each is applied to the real from_snapshot on both engines.",
         design="DESIGN.md section 8 C12",
-        note="Trusted: TLC, exporter, recorder. Child actors in snapshots are not covered by this check. Pending timers / in-flight services are excepted by the property."),
+        note="Trusted: TLC, exporter, recorder. Child actors: reachable states of the actor model (spec/SCActors.tla) with live children are snapshotted, restored and continued on the asyncio engine (harness/actors.snapshot_leg). Pending timers / in-flight services are excepted by the property."),
     "C17": dict(
         technique="TLC checks the generator's protocol (spec/Codegen.tla: render, verify all, write; invariants NoWriteBeforeVerified, AllOrNothing) and validates the observation of every real `xsm generate-template` invocation (spec/CodegenObs.tla); 'rebuilds the source machine' is decided against Norm(J) computed by TLC from spec/Frontend.tla; the harness runs the real CLI, diffs the directory, runs --check and a second generation, imports the output in a fresh process and reads the built machine back",
         text="Per invocation (machine x template in {pythonic-builder, pythonic-functional, pythonic-class, class-json, function-json} x async yes/no x 1/2 files): exit status and directory before/after (refusal writes nothing), every written file parses, imports silently in a fresh process (no output, no new files, no payload), pythonic templates build a machine whose normal form equals Norm(J) (states, kinds, initial/history, resolved targets, guards with structure and params, actions with params, delays, invokes, tags, meta, context) and whose configurations along a fixed event sequence equal those of create_machine(json) under the same logic; JSON-loading templates: create_machine(json, generated logic) binds every referenced name; --check on fresh output exits 0; regeneration is byte-identical. Machines: family W, G, S, H, X, V, R, E and identifier-named twins, hostile / colliding names (quote, docstring, newline, comment breakers around a sentinel-creating payload), the Stately corpus.",
